@@ -17,6 +17,21 @@ fn r2s<T: std::fmt::Debug, E: std::fmt::Debug>(r: Result<T, E>) -> String {
 
 /// Every read-only query, answered by NAME / canonical subtree text, never by arena id.
 /// `order` permutes the order in which the queries are issued (they fill caches).
+/// a caterpillar on the given (sorted, distinct) names with every branch of length 1, built through the API
+fn reference_caterpillar(names: &[String]) -> Tree {
+    let mut t = Tree::new();
+    let mut cur = t.add(phylotree::tree::Node::new());
+    for (i, n) in names.iter().enumerate() {
+        if i + 2 < names.len() {
+            t.add_child(phylotree::tree::Node::new_named(n), cur, Some(1.0)).unwrap();
+            cur = t.add_child(phylotree::tree::Node::new(), cur, Some(1.0)).unwrap();
+        } else {
+            t.add_child(phylotree::tree::Node::new_named(n), cur, Some(1.0)).unwrap();
+        }
+    }
+    t
+}
+
 pub fn battery(t: &Tree, order: &[usize]) -> Vec<(String, String)> {
     let slots = slots_of(t);
     let canon_of = |id: usize| -> String { rose_of(&slots, id).map(|r| r.canon()).unwrap_or_else(|| format!("<dead {id}>")) };
@@ -109,6 +124,24 @@ pub fn battery(t: &Tree, order: &[usize]) -> Vec<(String, String)> {
         ("by_name_absent", Box::new(|| ["", " ", "<no such name>"].iter().map(|n| t.get_by_name(n).map(|x| format!("found {}", canon_of(x.id))).unwrap_or("-".into())).collect::<Vec<_>>().join(" ; "))),
         ("search_all", Box::new(|| { let mut v: Vec<String> = t.search_nodes(|_| true).iter().map(|i| canon_of(*i)).collect(); v.sort(); format!("{} {}", v.len(), v.join(" ; ")) })),
         ("search_unnamed", Box::new(|| { let mut v: Vec<String> = t.search_nodes(|n| n.name.is_none()).iter().map(|i| canon_of(*i)).collect(); v.sort(); v.join(" ; ") })),
+        // the length-aware bipartition answers are only observable through the weighted comparisons: against a fixed
+        // reference tree on the same taxa and against the tree itself (Ok / Err is part of the answer)
+        ("weighted_vs_reference", Box::new(|| {
+            if dup_leaves || leaf_names.len() < 2 || leaf_names.iter().any(|n| n == "<unnamed>") {
+                return "-".into();
+            }
+            let r = reference_caterpillar(&leaf_names);
+            let me = t.clone();
+            format!(
+                "wrf={} kf={} cmp={} rf={} self_wrf={} self_kf={}",
+                r2s(t.weighted_robinson_foulds(&r).map(|v| v.to_bits())),
+                r2s(t.khuner_felsenstein(&r).map(|v| v.to_bits())),
+                r2s(t.compare_topologies(&r).map(|c| (c.rf.to_bits(), c.norm_rf.to_bits(), c.weighted_rf.to_bits(), c.branch_score.to_bits()))),
+                r2s(t.robinson_foulds(&r)),
+                r2s(t.weighted_robinson_foulds(&me).map(|v| v.to_bits())),
+                r2s(t.khuner_felsenstein(&me).map(|v| v.to_bits())),
+            )
+        })),
         ("newick", Box::new(|| r2s(t.to_newick()))),
         ("nexus", Box::new(|| {
             // TAXLABELS follows arena order, which the documentation does not promise: compared as a multiset
